@@ -154,6 +154,9 @@ static asn_TYPE_descriptor_t *TY[MAXT];
 static int NTY;
 static unsigned char HAS_NOPER[MAXT], HAS_NOOER[MAXT], HAS_NOFILL[MAXT], HAS_OPEN[MAXT], IS_REC[MAXT], NOT_PDU[MAXT];
 static const char *const *SEEDS[MAXT];
+/* types with a member that has no PER / OER codec used to be kept away from those codecs (NULL op slot called by the constructed
+ * codecs); since /repo commit b8310cc the codecs fail cleanly, so these failure paths are part of the battery */
+static int SKIP_NOCODEC = 0;
 static unsigned long NVALID[MAXT + 1], NINVALID[MAXT + 1];   /* ro/cov mode (single thread): values seen per descriptor, by verdict of its own checker */
 static int COUNT_VALUES;
 #define MAXPEER 6
@@ -483,8 +486,8 @@ static NOINSTR void encode_all(struct ctx *c, asn_TYPE_descriptor_t *td, const v
     for(s = 0; s < NSYN; s++) {
         buf_t out = {0, 0, 0, 0, 0};
         asn_enc_rval_t er;
-        if(ti >= 0 && SYN[s].per && HAS_NOPER[ti]) continue;
-        if(ti >= 0 && SYN[s].oer && HAS_NOOER[ti]) continue;
+        if(SKIP_NOCODEC && ti >= 0 && SYN[s].per && HAS_NOPER[ti]) continue;
+        if(SKIP_NOCODEC && ti >= 0 && SYN[s].oer && HAS_NOOER[ti]) continue;
         OP(c, "asn_encode(unchecked value)");
         er = asn_encode(0, SYN[s].enc, td, st, cb_buf, &out);
         lstr(&c->log, " "); lstr(&c->log, SYN[s].name); lnum(&c->log, "e", (long)er.encoded);
@@ -495,9 +498,15 @@ static NOINSTR void encode_all(struct ctx *c, asn_TYPE_descriptor_t *td, const v
     lstr(&c->log, ">");
 }
 
+/* oer_decode() calls td->op->oer_decoder without looking at it: a type without an OER decoder (every SET) makes asn_decode(ATS_*_OER)
+ * and oer_decode() jump to address 0 in the unchanged library (finding C19-oer-decode-null-decoder; probed once per type in `ro` mode,
+ * where the crash is recovered, and kept out of the battery otherwise) */
+static NOINSTR int can_decode(const asn_TYPE_descriptor_t *td, int s) { return !(SYN[s].oer && !td->op->oer_decoder); }
+
 static NOINSTR void decode_and_use(struct ctx *c, asn_TYPE_descriptor_t *td, int s, const uint8_t *b, size_t n, const void *orig, const char *tag, int reenc) {
     void *st2 = 0;
     asn_dec_rval_t rv;
+    if(!can_decode(td, s)) return;
     OP(c, "asn_decode");
     rv = asn_decode(0, SYN[s].dec, td, &st2, b, n);
     lstr(&c->log, " "); lstr(&c->log, tag); lnum(&c->log, "dec", rv.code); lnum(&c->log, "used", (long)rv.consumed);
@@ -595,9 +604,15 @@ static NOINSTR void one_round(struct ctx *c, int ti) {
         int ns = 0; const char *h; uint8_t sb[256]; size_t sn = 0;
         while(SEEDS[ti][ns]) ns++;
         h = SEEDS[ti][((HAS_NOFILL[ti] ? visit : visit / 2) + (unsigned)c->idx) % (unsigned)ns];
-        for(; h[0] && h[1] && sn < sizeof sb; h += 2) { unsigned v = 0; sscanf(h, "%2x", &v); sb[sn++] = (uint8_t)v; }
-        OP(c, "ber_decode(seed)");
-        rv = ber_decode(0, td, &st, sb, sn);
+        {   /* "oer:", "uper:", "xer:" in front of the hex digits select the syntax of a hand-made encoding; BER otherwise */
+            enum asn_transfer_syntax syn = ATS_BER;
+            if(!strncmp(h, "oer:", 4)) { syn = ATS_BASIC_OER; h += 4; }
+            else if(!strncmp(h, "uper:", 5)) { syn = ATS_UNALIGNED_BASIC_PER; h += 5; }
+            else if(!strncmp(h, "xer:", 4)) { syn = ATS_BASIC_XER; h += 4; }
+            for(; h[0] && h[1] && sn < sizeof sb; h += 2) { unsigned v = 0; sscanf(h, "%2x", &v); sb[sn++] = (uint8_t)v; }
+            OP(c, "asn_decode(seed)");
+            rv = asn_decode(0, syn, td, &st, sb, sn);
+        }
         lnum(L, "seed", rv.code);
         if(rv.code != RC_OK) { OP(c, "free"); ASN_STRUCT_FREE(*td, st); st = 0; }   /* a directed undecodable input: the decoder's failure path ran */
     }
@@ -617,8 +632,8 @@ static NOINSTR void one_round(struct ctx *c, int ti) {
     for(s = 0; s < NSYN; s++) {
         buf_t out = {0, 0, 0, 0, 0};
         asn_encode_to_new_buffer_result_t nb;
-        if(SYN[s].per && HAS_NOPER[ti]) continue;
-        if(SYN[s].oer && HAS_NOOER[ti]) continue;
+        if(SKIP_NOCODEC && SYN[s].per && HAS_NOPER[ti]) continue;
+        if(SKIP_NOCODEC && SYN[s].oer && HAS_NOOER[ti]) continue;
         /* (values that fail their own constraint check are OER-encoded too since /repo commit 668e2d3 ended the
          * BIT_STRING_encode_oer padding loop) */
         lstr(L, " {"); lstr(L, SYN[s].name);
@@ -650,7 +665,7 @@ static NOINSTR void one_round(struct ctx *c, int ti) {
                 free(fo.p);
             }
         }
-        if(SYN[s].dec != ATS_INVALID && out.n < 100000) {
+        if(SYN[s].dec != ATS_INVALID && out.n < 100000 && can_decode(td, s)) {
             int pk;
             decode_and_use(c, td, s, out.p, out.n, st, "rt", 0);
             if(s == 0) {
@@ -719,7 +734,7 @@ static NOINSTR void one_round(struct ctx *c, int ti) {
             for(pk = 0; pk < NDECODE_AS[ti]; pk++) {
                 int di = DECODE_AS[ti][pk];
                 if(di < 0 || NOT_PDU[di]) continue;
-                if((SYN[s].per && HAS_NOPER[di]) || (SYN[s].oer && HAS_NOOER[di])) continue;
+                if(SKIP_NOCODEC && ((SYN[s].per && HAS_NOPER[di]) || (SYN[s].oer && HAS_NOOER[di]))) continue;
                 c->td = TY[di];
                 lstr(L, " as:"); lstr(L, TY[di]->name);
                 decode_and_use(c, TY[di], s, out.p, out.n, 0, "peer", 1);
@@ -812,7 +827,7 @@ static NOINSTR void one_round(struct ctx *c, int ti) {
         lnum(L, "xfp", xer_fprint(f, td, st));
         fclose(f); free(mem);
 #ifndef ASN_DISABLE_PER_SUPPORT
-        if(!HAS_NOPER[ti]) {
+        if(!SKIP_NOCODEC || !HAS_NOPER[ti]) {
             out.n = 0;
             OP(c, "uper_encode");
             er = uper_encode(td, 0, st, cb_buf, &out); lnum(L, "uper", (long)er.encoded);
@@ -832,16 +847,20 @@ static NOINSTR void one_round(struct ctx *c, int ti) {
         }
 #endif
 #ifndef ASN_DISABLE_OER_SUPPORT
-        if(!HAS_NOOER[ti]) {
+        if(!SKIP_NOCODEC || !HAS_NOOER[ti]) {
             out.n = 0;
-            OP(c, "oer_encode");
-            er = oer_encode(td, st, cb_buf, &out); lnum(L, "oer", (long)er.encoded);
+            if(td->op->oer_encoder) {   /* oer_encode() does not look at the slot either (same finding as can_decode) */
+                OP(c, "oer_encode");
+                er = oer_encode(td, st, cb_buf, &out); lnum(L, "oer", (long)er.encoded);
+            }
             OP(c, "oer_encode_to_buffer");
             er = oer_encode_to_buffer(td, 0, st, fixed, sizeof fixed); lnum(L, "oerb", (long)er.encoded);
-            OP(c, "oer_decode");
-            st2 = 0; rv = oer_decode(0, td, &st2, out.p, out.n); lnum(L, "oerd", rv.code);
-            OP(c, "free");
-            ASN_STRUCT_FREE(*td, st2);
+            if(td->op->oer_decoder) {
+                OP(c, "oer_decode");
+                st2 = 0; rv = oer_decode(0, td, &st2, out.p, out.n); lnum(L, "oerd", rv.code);
+                OP(c, "free");
+                ASN_STRUCT_FREE(*td, st2);
+            }
         }
 #endif
         free(out.p);
@@ -927,8 +946,8 @@ static NOINSTR void null_round(struct ctx *c, int ti) {
     for(s = 0; s < NSYN; s++) {
         buf_t out = {0, 0, 0, 0, 0};
         asn_enc_rval_t er;
-        if(SYN[s].per && HAS_NOPER[ti]) continue;
-        if(SYN[s].oer && HAS_NOOER[ti]) continue;
+        if(SKIP_NOCODEC && SYN[s].per && HAS_NOPER[ti]) continue;
+        if(SKIP_NOCODEC && SYN[s].oer && HAS_NOOER[ti]) continue;
         OP(c, "asn_encode(NULL)");
         er = asn_encode(0, SYN[s].enc, td, 0, cb_buf, &out);
         lnum(L, SYN[s].name, (long)er.encoded);
@@ -1341,6 +1360,41 @@ static NOINSTR int main_ro(uint64_t seed, int iters, int protect) {
                 printf("CRASH sig=%d op=%s type=%s iter=%d\n", sig, c.op ? c.op : "?", i >= 0 ? TY[i]->name : "-", it);
             }
             recover_armed = 0;
+#ifndef ASN_DISABLE_OER_SUPPORT
+            /* known finding probes (see can_decode): the OER entry points on a type without an OER codec; each in its own recovery scope */
+            if(i >= 0 && it == 0 && !NOT_PDU[i] && !TY[i]->op->oer_decoder) {
+                recover_armed = 1;
+                if((sig = sigsetjmp(RECOVER, 1)) == 0) {
+                    void *pst = 0;
+                    asn_dec_rval_t prv;
+                    c.td = TY[i];
+                    c.op = "asn_decode(OER) on a type without OER decoder"; c.nops++;
+                    prv = asn_decode(0, ATS_BASIC_OER, TY[i], &pst, "", 0);
+                    printf("PROBE oer-null-codec type=%s op=asn_decode survived rc=%d\n", TY[i]->name, (int)prv.code);
+                    ASN_STRUCT_FREE(*TY[i], pst);
+                } else {
+                    if(pending_addr) { pending_addr = 0; protect_all(PROT_READ); }
+                    printf("PROBE oer-null-codec type=%s op=asn_decode sig=%d\n", TY[i]->name, sig);
+                }
+                recover_armed = 0;
+            }
+            if(i >= 0 && it == 0 && !NOT_PDU[i] && !TY[i]->op->oer_encoder) {
+                recover_armed = 1;
+                if((sig = sigsetjmp(RECOVER, 1)) == 0) {
+                    buf_t po = {0, 0, 0, 0, 0};
+                    asn_enc_rval_t per;
+                    c.td = TY[i];
+                    c.op = "oer_encode() on a type without OER encoder"; c.nops++;
+                    per = oer_encode(TY[i], &po /* any non-NULL structure pointer: it is never looked at */, cb_buf, &po);
+                    printf("PROBE oer-null-codec type=%s op=oer_encode survived rc=%ld\n", TY[i]->name, (long)per.encoded);
+                    free(po.p);
+                } else {
+                    if(pending_addr) { pending_addr = 0; protect_all(PROT_READ); }
+                    printf("PROBE oer-null-codec type=%s op=oer_encode sig=%d\n", TY[i]->name, sig);
+                }
+                recover_armed = 0;
+            }
+#endif
         }
     }
     for(i = 0; i < NEV; i++) {
